@@ -7,6 +7,7 @@ import (
 	"fmt"
 	"os"
 	"runtime"
+	"sort"
 	"strings"
 	"sync"
 	"sync/atomic"
@@ -485,6 +486,70 @@ func TestRaceAndAtomicSwitch(t *testing.T) {
 			t.Fatalf("%s", m)
 		default:
 		}
+		// Quiescence: every load has returned. Each module's two getters now describe the same rules: the whole-set getter
+		// reports exactly what the per-resource getter reports for the resources that carry rules.
+		{
+			resources := []string{"sw", "kb", "t0", "t1", "t2", "t3"}
+			cmp := func(module string, all []string, per func(res string) []string) {
+				var byRes []string
+				for _, r := range resources {
+					byRes = append(byRes, per(r)...)
+				}
+				var known []string
+				for _, x := range all {
+					for _, r := range resources {
+						if strings.HasPrefix(x, r+"|") {
+							known = append(known, x)
+						}
+					}
+				}
+				sort.Strings(byRes)
+				sort.Strings(known)
+				if fmt.Sprint(byRes) != fmt.Sprint(known) {
+					t.Fatalf("%s rules at quiescence (every load has returned): GetRules reports %v for the resources of this case, GetRulesOfResource reports %v", module, known, byRes)
+				}
+			}
+			var all []string
+			for _, r := range flow.GetRules() {
+				all = append(all, fmt.Sprintf("%s|%s|%v|%d", r.Resource, r.ID, r.Threshold, r.StatIntervalInMs))
+			}
+			cmp("flow", all, func(res string) (out []string) {
+				for _, r := range flow.GetRulesOfResource(res) {
+					out = append(out, fmt.Sprintf("%s|%s|%v|%d", r.Resource, r.ID, r.Threshold, r.StatIntervalInMs))
+				}
+				return
+			})
+			all = nil
+			for _, r := range cb.GetRules() {
+				all = append(all, fmt.Sprintf("%s|%s|%v|%v", r.Resource, r.Id, r.Strategy, r.Threshold))
+			}
+			cmp("circuit breaker", all, func(res string) (out []string) {
+				for _, r := range cb.GetRulesOfResource(res) {
+					out = append(out, fmt.Sprintf("%s|%s|%v|%v", r.Resource, r.Id, r.Strategy, r.Threshold))
+				}
+				return
+			})
+			all = nil
+			for _, r := range isolation.GetRules() {
+				all = append(all, fmt.Sprintf("%s|%s|%v", r.Resource, r.ID, r.Threshold))
+			}
+			cmp("isolation", all, func(res string) (out []string) {
+				for _, r := range isolation.GetRulesOfResource(res) {
+					out = append(out, fmt.Sprintf("%s|%s|%v", r.Resource, r.ID, r.Threshold))
+				}
+				return
+			})
+			all = nil
+			for _, r := range hotspot.GetRules() {
+				all = append(all, fmt.Sprintf("%s|%s|%v|%v", r.Resource, r.ID, r.MetricType, r.Threshold))
+			}
+			cmp("hotspot", all, func(res string) (out []string) {
+				for _, r := range hotspot.GetRulesOfResource(res) {
+					out = append(out, fmt.Sprintf("%s|%s|%v|%v", r.Resource, r.ID, r.MetricType, r.Threshold))
+				}
+				return
+			})
+		}
 		// First touches of brand-new resources, released together: the first rule load for the resource races with its first
 		// requests. Once everything has returned, the loaded rule (2 per second) is the one in force and it must see the
 		// requests of the resource: of six further requests within the same second at most two are admitted.
@@ -509,9 +574,58 @@ func TestRaceAndAtomicSwitch(t *testing.T) {
 					}
 				}()
 			}
+			// the first circuit-breaking and isolation rules of the same resource are loaded meanwhile, while two readers keep
+			// asking the whole-set getters: once everything has returned, the getters report the loaded rules
+			for j := 0; j < 4; j++ {
+				j := j
+				done.Add(1)
+				go func() {
+					defer done.Done()
+					defer guard("getter freshness")
+					start.Wait()
+					switch j {
+					case 0:
+						if _, err := cb.LoadRulesOfResource(res, []*cb.Rule{{Id: "first", Resource: res, Strategy: cb.ErrorCount, RetryTimeoutMs: 5, MinRequestAmount: 1, StatIntervalMs: 1000, Threshold: 1e9}}); err != nil {
+							report("rule load returned %v", err)
+						}
+					case 1:
+						if _, err := isolation.LoadRulesOfResource(res, []*isolation.Rule{{ID: "first", Resource: res, MetricType: isolation.Concurrency, Threshold: 1 << 30}}); err != nil {
+							report("rule load returned %v", err)
+						}
+					default:
+						for i := 0; i < 20; i++ {
+							_ = cb.GetRules()
+							_ = isolation.GetRules()
+							_ = flow.GetRules()
+							runtime.Gosched()
+						}
+					}
+				}()
+			}
 			t0 := time.Now()
 			start.Done()
 			waitOrDie(&done, "first touches of a new resource")
+			fresh := map[string]bool{}
+			for _, r := range cb.GetRules() {
+				if r.Resource == res {
+					fresh["circuit breaker"] = true
+				}
+			}
+			for _, r := range isolation.GetRules() {
+				if r.Resource == res {
+					fresh["isolation"] = true
+				}
+			}
+			for _, r := range flow.GetRules() {
+				if r.Resource == res {
+					fresh["flow"] = true
+				}
+			}
+			for _, m := range []string{"circuit breaker", "isolation", "flow"} {
+				if !fresh[m] {
+					t.Fatalf("new resource %s: its first %s rule was loaded (the load has returned) while readers were calling GetRules; GetRules now does not report it", res, m)
+				}
+			}
 			admitted := 0
 			for j := 0; j < 6; j++ {
 				if e, blk := sentinel.Entry(res); blk == nil {
